@@ -36,7 +36,9 @@
 #include <stdbool.h>
 #include <ev.h>
 
+#include <sys/wait.h>
 static int hx_pipe(int fd[2]);
+static pid_t hx_waitpid(pid_t pid, int *st, int opts);
 static void hx_child_start(struct ev_loop *loop, ev_child *c);
 static void hx_child_stop(struct ev_loop *loop, ev_child *c);
 
@@ -44,7 +46,10 @@ static void hx_child_stop(struct ev_loop *loop, ev_child *c);
 #define pipe			hx_pipe
 #define ev_child_start		hx_child_start
 #define ev_child_stop		hx_child_stop
+/* the daemon has no business waiting for children itself (libev does); should it, it finds the fake ones */
+#define waitpid			hx_waitpid
 #include "echsd.c"
+#undef waitpid
 #undef main
 #undef pipe
 #undef ev_child_start
@@ -134,7 +139,7 @@ getpwuid(uid_t u)
 	for (int i = 0; i < HX_NUSERS; i++) {
 		if (hx_pw[i].pw_uid == u) return &hx_pw[i];
 	}
-	if (u >= 2000 && u < 2100) {
+	if ((u >= 2000 && u < 2100) || u == 4294967294u) {
 		snprintf(hx_pwx_name, sizeof(hx_pwx_name), "u%u", u);
 		snprintf(hx_pwx_dir, sizeof(hx_pwx_dir), "/home/u%u", u);
 		hx_pwx = (struct passwd){.pw_name = hx_pwx_name, .pw_uid = u, .pw_gid = u, .pw_dir = hx_pwx_dir, .pw_shell = "/bin/sh"};
@@ -591,6 +596,27 @@ hx_child_stop(struct ev_loop *loop, ev_child *c)
 	}
 }
 
+/* a job that has exited but has not been collected by libev yet (it exits while an iteration is under way, after
+ * libev has looked at its signals): if the daemon waits for "any child" itself, it gets this one and libev never
+ * hears of it */
+static ev_child *hx_unreaped;
+static int hx_stolen;
+
+static pid_t
+hx_waitpid(pid_t pid, int *st, int opts)
+{
+	(void)opts;
+	if (hx_unreaped != NULL && (pid == -1 || pid == hx_unreaped->pid)) {
+		pid_t r = hx_unreaped->pid;
+		if (st) *st = 0;
+		hx_unreaped = NULL;
+		hx_stolen = 1;
+		return r;
+	}
+	errno = ECHILD;
+	return -1;
+}
+
 /* ================= daemon life cycle ================= */
 static struct _echsd_s *hx_ctx;
 static double hx_drift;	/* virtual seconds that pass while a wake-up with spawns is handled */
@@ -723,6 +749,29 @@ hx_tick_exit(double to, int i, int st)
 	hx_pend_exit = hx_chld[i];
 	hx_pend_st = st;
 	return hx_iterate();
+}
+
+/* the clock reaches TO; while that iteration is under way (signals already looked at) live child I exits.  libev
+ * collects it in the next iteration -- unless the daemon has waited for it behind libev's back; returns 1 then */
+static int
+hx_tick_then_exit(double to, int i, int st)
+{
+	ev_child *c = hx_chld[i];
+	if (to > hx_now) {
+		hx_now = to;
+	}
+	hx_unreaped = c;
+	hx_stolen = 0;
+	hx_iterate();
+	if (!hx_stolen) {
+		hx_unreaped = NULL;
+		c->rpid = c->pid;
+		c->rstatus = st;
+		ev_feed_event(hx_ctx->loop, c, EV_CHILD);
+		hx_iterate();
+		return 0;
+	}
+	return 1;
 }
 
 /* live child I is stopped (SIGSTOP) or continued: libev tells a watcher about that only when it was set up with the
